@@ -424,10 +424,10 @@ def run(ctx):
     ncorpus = len(cases)
     bnd = boundary_cases(rng)
     cases += bnd
-    nrand = 1600 if quick else 20000
+    nrand = 1600 if quick else 8000
     for i in range(nrand):
         cases.append(gen_case(rng, KINDS[i % 4]))
-    nslice = 300 if quick else 3000
+    nslice = 300 if quick else 2000
     for _ in range(nslice):
         cases.append(gen_slice(rng))
     nexh = 0
